@@ -5,11 +5,31 @@
    Oracle: x^e; for |x| ≥ 2 and e ≥ 2^128 the documented capacity panic. -/
 import NB.Wire
 import NB.Model.Pow
+import NB.Model.PowD
+import NB.Model.AsmParams
 namespace NB.Drv.C12
 open NB NB.Wire NB.Pow NB.IntVal
 
+/-- the extracted parameters the digit-level multiplication runs with -/
+def P := NB.Gen.P
+
+/-- operands as the harness builds them: `BigUint::new` / `BigInt::from_biguint` normalise (strip high
+    zero limbs, zero gets `NoSign`), so the digit-level model is always run on the canonical vector the
+    real code sees (identity on canonical request tokens; the shrinker of tools/check.py can emit a
+    token like `0`).  A limb that is not a 64-bit digit is rejected (the harness cannot parse it either). -/
+def pU (s : String) : Option (List Nat) := do
+  let l ← parseLimbs s
+  if l.all (fun d => decide (d < B)) then pure (normalize l) else none
+def pI (s : String) : Option BigInt := do
+  let x ← parseBigInt s
+  if x.mag.all (fun d => decide (d < B)) then pure (BigInt.fromBiguint x.sign (normalize x.mag)) else none
+
+/- MODEL column: the digit-level definitions of NB.Model.PowD (every `*` is `mulRef`/`mulAssign` on the
+   limbs as received; BigUint exponents are digit vectors); ORACLE column: `x ^ e` on Nat/Int. -/
 def su (r : Except Panic Nat) : String := showExcept showLimbs (r.map ofNat)
 def si (r : Except Panic Int) : String := showExcept showBigInt (r.map BigInt.ofInt)
+def du := showExcept showLimbs
+def di := showExcept showBigInt
 
 def parseForm : String → Option Form
   | "vv" => some .vv | "vr" => some .vr | "rv" => some .rv | "rr" => some .rr | _ => none
@@ -18,13 +38,13 @@ def typeBits : String → Option Nat
   | "u8" => some 8 | "u16" => some 16 | "u32" => some 32 | "u64" => some 64
   | "usize" => some 64 | "u128" => some 128 | _ => none
 
-/-- exponent token: `(isBig, value)` -/
-def parseExp (s : String) : Option (Bool × Nat) :=
+/-- exponent token: `(isBig, value, limbs)` (the limbs only for a BigUint exponent) -/
+def parseExp (s : String) : Option (Bool × Nat × List Nat) :=
   match s.splitOn ":" with
-  | ["big", l] => do let l ← parseLimbs l; pure (true, val l)
+  | ["big", l] => do let l ← pU l; pure (true, val l, l)
   | [t, e] => do
     let w ← typeBits t; let e ← parseNat e
-    if e < 2 ^ w then pure (false, e) else none
+    if e < 2 ^ w then pure (false, e, []) else none
   | _ => none
 
 /-- oracle for a natural base -/
@@ -42,21 +62,21 @@ def oPowI (x : Int) (e : Nat) : Except Panic Int :=
 def handle (op : String) (args : List String) : Option (String × String) :=
   match op.splitOn ".", args with
   | ["u", "pow", f], [a, e] => do
-    let a ← parseLimbs a; let (big, e) ← parseExp e
+    let a ← pU a; let (big, e, el) ← parseExp e
     if f == "m" then
       if big ∨ e ≥ 2 ^ 32 then none else
-      pure (su (powRV (val a) e), su (oPowU (val a) e))
+      pure (du (PowD.powRV P a e), su (oPowU (val a) e))
     else
       let f ← parseForm f
-      pure (su ((if big then powBig else powPrim) f (val a) e), su (oPowU (val a) e))
+      pure (du (if big then PowD.powBig P f a el else PowD.powPrim P f a e), su (oPowU (val a) e))
   | ["i", "pow", f], [a, e] => do
-    let a ← parseBigInt a; let (big, e) ← parseExp e
+    let a ← pI a; let (big, e, el) ← parseExp e
     if f == "m" then
       if big ∨ e ≥ 2 ^ 32 then none else
-      pure (si (bigintPow .rv a.val e), si (oPowI a.val e))
+      pure (di (PowD.bigintPow P .rv a e), si (oPowI a.val e))
     else
       let f ← parseForm f
-      pure (si ((if big then bigintPowBig else bigintPow) f a.val e), si (oPowI a.val e))
+      pure (di (if big then PowD.bigintPowBig P f a el else PowD.bigintPow P f a e), si (oPowI a.val e))
   | _, _ => none
 
 end NB.Drv.C12
